@@ -30,7 +30,7 @@ def op_table(profile, extra=None):
     return table
 
 
-def cfg_strategy(n_min=2, n_max=5, profiles=None, fixed=None, batch_bytes=None):
+def cfg_strategy(n_min=2, n_max=5, profiles=None, fixed=None, batch_bytes=None, **_kw):
     profiles = profiles or [p for p in PROFILES if p != 'isolation']
     d = {
         'n': st.integers(n_min, n_max),
